@@ -5,6 +5,7 @@ from ..index import AnalysisError, attr_chain, chain_prefixes, norm, own_nodes
 from ..query import (calls_in, call_name, is_value_yield, lines, mentions, falsy_edges, truthy_edges,
                      assigns, assigns_none)
 from ..flow import reaching_defs
+from .common import borrowed
 from .common import (TLSCONN, TLSREC, fin_summary, nodes_with_call, consumes_of, getmsg_nodes,
                      dead_edge_labels, effective_tests, must_pass, senderror_desc, gate_table)
 
@@ -640,4 +641,5 @@ RULES = [
     ("C05.TICKET-ID", "quick", rule_ticket_identity),
     ("C05.CHECKER", "quick", rule_checker),
     ("C05.CACHE", "quick", rule_cache),
+    ("C05.PROOF-VALUES", "quick", borrowed("c10", "rule_peer_values", "C10.PEER-VALUES", "C05.PROOF-VALUES")),
 ]
